@@ -726,6 +726,8 @@ namespace occa {
       }
 
       push();
+      // Skip the /* so that its * cannot close the comment: /*/ is not a comment
+      fp.start += 2;
 
       bool finishedComment = false;
       while (!finishedComment && *fp.start != '\0') {
